@@ -172,15 +172,29 @@ def _warn_tested_bits(prog, ev, fid, b, depth=0, env=None):
     warn_blocks = [bi for bi, t in body.calls() if (t.get("callee") or "").endswith("Warn::warn")]
     for wb in warn_blocks:
         for c, rel, v, edge, dty in ir.edge_conditions(wb):
-            for x in walk(c):
-                if isinstance(x, tuple) and x and x[0] == "bin" and x[1] in ("BitAnd", "Shr", "Shl", "BitOr"):
+            # the *outermost* bit expressions of the condition: `((x & 0xf0) >> 4) & 2 != 0` tests one bit, not the four that
+            # the inner mask lets through
+            def visit(x):
+                if not isinstance(x, tuple) or not x:
+                    return
+                if x[0] == "bin" and x[1] in ("BitAnd", "Shr", "Shl", "BitOr"):
                     try:
                         val = ev.eval(x, env, ir)
                     except Unsupported:
-                        continue
-                    for bit in val:
-                        for s in sources_in(bit):
-                            out.add(_key_of(s))
+                        val = None
+                    if val is not None:
+                        for bit in val:
+                            for s in sources_in(bit):
+                                out.add(_key_of(s))
+                        return
+                for y in x[1:]:
+                    if isinstance(y, tuple):
+                        if y and isinstance(y[0], str):
+                            visit(y)
+                        else:
+                            for z in y:
+                                visit(z)
+            visit(c)
     if depth < 3:
         e, _ = ev.ret_expr(fid)
         for x in walk(e):
@@ -530,6 +544,21 @@ def chunk_resend_flag(prog, rep):
                 for c in cands:
                     while c[0] in ("deref", "ref"):
                         c = c[2] if c[0] == "ref" else c[1]
+                    if c[0] == "bin" and c[1] == "Ne" and c[3][0] == "c" and c[3][1] == 0 and c[2][0] == "bin" and c[2][1] == "BitAnd" \
+                            and c[2][3][0] == "c" and c[2][3][1] == flag:
+                        ok = True
+        # the same pair built without a closure: `match sequence { Some(s) => Some((s, flags & CHUNKFLAG_RESEND != 0)), .. }`
+        for bi in sorted(b.live):
+            for si, st in enumerate(b.blocks[bi]["st"]):
+                if st["k"] == "assign" and st["r"]["k"] == "agg" and st["r"].get("ak") == "tuple" and len(st["r"].get("ops", [])) == 2:
+                    ty = ir.ltystr(st["p"]["l"]) if not st["p"].get("pr") else ""
+                    if "u16" not in ty or "bool" not in ty:
+                        continue
+                    found = True
+                    c = ir.operand(st["r"]["ops"][1], (bi, si))
+                    while c[0] in ("deref", "ref"):
+                        c = c[2] if c[0] == "ref" else c[1]
+                    c = strip_sites(c)
                     if c[0] == "bin" and c[1] == "Ne" and c[3][0] == "c" and c[3][1] == 0 and c[2][0] == "bin" and c[2][1] == "BitAnd" \
                             and c[2][3][0] == "c" and c[2][3][1] == flag:
                         ok = True
